@@ -69,6 +69,11 @@ class Real:
         kw = dict(dim=self.dim, var=2.0, len_scale=LEN[tok], nugget=self.nugget)
         if tok == 3 and self.dim > 1:
             kw.update(anis=0.4, angles=0.5)
+        if "nearby" in self.opts:
+            # model tokens differ by less than numpy.isclose resolves (relative changes of a few 1e-6)
+            kw["len_scale"] = {1: 1.0, 2: 1.0 + 4e-6, 3: 1.0 + 8e-6}[tok]
+            if tok == 3 and self.dim > 1:
+                kw.update(anis=1.0 - 3e-6, angles=3e-9)
         if "stable" in self.opts:
             # model tokens 1 and 2 differ ONLY in the shape parameter
             kw.update(len_scale=LEN[1] if tok in (1, 2) else LEN[3], alpha=0.8 if tok == 2 else 1.5)
@@ -146,10 +151,11 @@ class Real:
                     c.model.anis = new.anis
                     c.model.angles = new.angles
             elif op["how"] == "inplace":
-                c.model.len_scale = LEN[op["m"]]
+                new = self.model(op["m"])
+                c.model.len_scale = new.len_scale
                 if self.dim > 1:
-                    c.model.anis = 0.4 if op["m"] == 3 else 1.0
-                    c.model.angles = 0.5 if op["m"] == 3 else 0.0
+                    c.model.anis = new.anis
+                    c.model.angles = new.angles
             else:
                 c.model = self.model(op["m"])
         elif n == "ChangeMean":
@@ -491,11 +497,12 @@ def run(pid, tier, seed, replay=None):
     combos = [("Simple", 1, 0.0, False, ()), ("Ordinary", 2, 0.0, False, ()), ("Simple", 2, 0.3, False, ()), ("Ordinary", 1, 0.0, True, ()),
               ("Simple", 2, 0.0, True, ()), ("Simple", 1, 0.0, "buffer", ()), ("Ordinary", 2, 0.0, "buffer", ()),
               ("Simple", 1, 0.3, False, ("cond_err0",)), ("Simple", 2, 0.0, False, ("lognormal",)), ("Simple", 1, 0.0, False, ("stable",)),
-              ("Ordinary", 2, 0.0, False, ("meshswitch",))]
+              ("Ordinary", 2, 0.0, False, ("meshswitch",)), ("Simple", 2, 0.0, False, ("nearby",))]
     if thorough:
         combos += [("Ordinary", 1, 0.0, False, ()), ("Simple", 2, 0.0, False, ()), ("Ordinary", 2, 0.3, False, ()), ("Ordinary", 2, 0.0, True, ()),
                    ("Ordinary", 2, 0.3, False, ("cond_err0",)), ("Ordinary", 1, 0.0, False, ("lognormal",)), ("Ordinary", 2, 0.0, False, ("stable",)),
-                   ("Simple", 2, 0.0, False, ("meshswitch",)), ("Simple", 1, 0.0, False, ("meshswitch",))]
+                   ("Simple", 2, 0.0, False, ("meshswitch",)), ("Simple", 1, 0.0, False, ("meshswitch",)),
+                   ("Ordinary", 1, 0.0, False, ("nearby",)), ("Ordinary", 2, 0.3, False, ("nearby",))]
     for ci, (variant, dim, nugget, big, opts) in enumerate(combos):
         n = 6
         sub = behs if thorough else behs[ci % 2::2]
